@@ -91,7 +91,8 @@ PrefixSorted ==
 \* sorted does not need cmp to be called on anything but keys of the input
 Emit(tag, rec) == IF Export THEN PrintT("@@" \o tag \o "@@" \o ToJson(rec)) ELSE TRUE
 Cmpct(m, s) == [k \in 1..Len(s) |->
-                 IF m = "num" THEN s[k].n ELSE <<s[k].items[1].n[1], s[k].items[2].s[1] - 96>>]
+                 IF m = "num" THEN <<s[k].n[1], s[k].n[2], IF s[k].k = "int" THEN 0 ELSE 1>>
+                 ELSE <<s[k].items[1].n[1], s[k].items[2].s[1] - 96>>]
 ExportFinal == pc = "done" => Emit("SORT", [m |-> mode, inp |-> Cmpct(mode, inp), out |-> Cmpct(mode, res)])
 
 =============================================================================
